@@ -928,6 +928,7 @@ var _ uuid.UUID
 //@ modifies nothing
 //@ func (*storage/raft.RaftGroup).Propose
 //@ props C11 C14
+//@ safety UNCLAIMED
 //@ ghost handed int = 0
 //@ ghost raftErr error = nil
 //@ at call Node.Propose
@@ -935,7 +936,6 @@ var _ uuid.UUID
 //@ set handed = 1
 //@ set raftErr = $ret0
 //@ end
-//@ requires [wf] !isnil(this.raft)
 //@ ensures [C11 rafts-answer-is-returned] handed == 1 && ret == raftErr
 //@ modifies nothing
 //@ func iface:storage/raft.Group.Propose
